@@ -1,6 +1,7 @@
 package props
 
 import (
+	"go/token"
 	"fmt"
 	"go/types"
 	"sort"
@@ -131,6 +132,8 @@ func collectAccess(fn *ssa.Function, roots []ssa.Value, acc *fieldAccess, seen m
 func checkC06(c *core.Ctx, r *core.Report) {
 	r.Explanation = "C06 (pipeline commands mean the same however the stream is chunked), replay precondition only: when a two-pass command finishes its first pass every upstream processor is rewound and must start from its initial state. " +
 		"(1) REWIND — for every type implementing the package's `processor` interface, each field of the processor (or of the options object it points to) that the Process cone both writes and reads (cross-batch state) is re-assigned in the Rewind cone, unless the type is cached-final (GetFinalResultIfExists can return true: it replays its stored result) or a two-pass accumulator (Rewind sets a flag that Process reads), or the field is a memo whose stored value does not depend on the input batch (compiled regular expressions); " +
+		"(4) the same for the DataProcessor wrapper itself (its merge counters are value fields of the wrapper: they must be reset on the wrapper's own copy); " +
+		"(5) in the head command every comparison or subtraction that involves the configured row limit also involves the count of rows already sent; " +
 		"(3) a CachedStream that is handed leftover rows back is marked not exhausted on every path (exhausted streams are skipped by the fetch loop); " +
 		"(2) flag consistency of the DataProcessor constructors: isTwoPassCmd is false or equals isBottleneckCmd; ignoresInputOrder implies !inputOrderMatters; every literal sets a processor and a processorLock."
 	r.NotCovered = "everything else in the statement: batch-size independence, several upstream streams (CachedStream exhaustion/hand-back), merge of parallel chains, the commands' semantics"
@@ -257,6 +260,144 @@ func checkC06(c *core.Ctx, r *core.Report) {
 			default:
 				r.Violation("REWIND", construct, c.Pos(pa.writes[f].Pos()), fmt.Sprintf("%s keeps cross-batch state in field %s (written and read by Process) that Rewind does not re-assign: when a later two-pass command (fillnull without field list, bin without span) replays the input, this command continues from where the first pass ended and the second pass sees different rows", tname, f.Name()))
 			}
+		}
+	}
+
+	// ---------------------------------------------------------------- (4) the DataProcessor wrapper itself
+	{
+		dpT := c.NamedType(pkgProcessor, "DataProcessor")
+		fetch, rewind := method(dpT, "Fetch"), method(dpT, "Rewind")
+		if fetch == nil || rewind == nil {
+			r.Undecided("REWIND", "DataProcessor:methods", "-", "Fetch/Rewind not resolvable")
+		} else {
+			fa := newFieldAccess()
+			// Fetch calls Rewind itself at the end of the first pass: keep Rewind's own writes out of the Fetch cone
+			collectAccess(fetch, []ssa.Value{fetch.Params[0]}, fa, map[*ssa.Function]bool{rewind: true}, 0)
+			ra := newFieldAccess()
+			collectAccess(rewind, []ssa.Value{rewind.Params[0]}, ra, map[*ssa.Function]bool{}, 0)
+			own := map[*types.Var]bool{}
+			var addOwn func(st *types.Struct, depth int)
+			addOwn = func(st *types.Struct, depth int) {
+				for i := 0; i < st.NumFields(); i++ {
+					own[st.Field(i)] = true
+					if inner, ok := st.Field(i).Type().Underlying().(*types.Struct); ok && depth < 2 {
+						addOwn(inner, depth+1) // nested struct values (mergeSettings) are part of the wrapper
+					}
+				}
+			}
+			addOwn(dpT.Underlying().(*types.Struct), 0)
+			dpExceptions := map[string]string{
+				"finishedFirstPass": "remembers that the first pass is over; it is what makes the rewind happen once and must survive it",
+			}
+			var state []*types.Var
+			for f := range fa.writes {
+				if _, ok := fa.reads[f]; ok && own[f] {
+					state = append(state, f)
+				}
+			}
+			sort.Slice(state, func(i, j int) bool { return state[i].Name() < state[j].Name() })
+			for _, f := range state {
+				construct := fmt.Sprintf("DataProcessor:field(%s)-reset-by-Rewind", f.Name())
+				_, reset := ra.writes[f]
+				switch {
+				case reset:
+					r.OK("REWIND", construct, c.Pos(fa.writes[f].Pos()), "assigned in the Rewind cone of the wrapper")
+				case dpExceptions[f.Name()] != "":
+					r.Assume("REWIND", construct, c.Pos(fa.writes[f].Pos()), "exception: "+dpExceptions[f.Name()])
+				default:
+					r.Violation("REWIND", construct, c.Pos(fa.writes[f].Pos()), fmt.Sprintf("the DataProcessor wrapper keeps cross-batch state in field %s (written and read while fetching) that DataProcessor.Rewind does not re-assign on its own copy: on the second pass of a downstream two-pass command this stage continues from where the first pass ended (e.g. a merge limit already counted as reached returns no rows)", f.Name()))
+				}
+			}
+			r.Floor("REWIND", "cross-batch fields of the DataProcessor wrapper", len(state), 1)
+		}
+	}
+
+	// ---------------------------------------------------------------- (5) a row limit is compared with the cumulative count
+	{
+		type limitSpec struct{ typ, limitOwner, limitField, counterField string }
+		for _, sp := range []limitSpec{{"headProcessor", "HeadExpr", "MaxRows", "numRecordsSent"}} {
+			named := c.NamedType(pkgProcessor, sp.typ)
+			limitF := c.Field("pkg/segment/structs", sp.limitOwner+"."+sp.limitField)
+			counterF := c.Field(pkgProcessor, sp.typ+"."+sp.counterField)
+			process := method(named, "Process")
+			cone := map[*ssa.Function]bool{process: true}
+			work := []*ssa.Function{process}
+			for len(work) > 0 {
+				f := work[len(work)-1]
+				work = work[:len(work)-1]
+				for _, ci := range core.CallsIn(f) {
+					if callee := ci.Common().StaticCallee(); callee != nil && !cone[callee] && callee.Signature.Recv() != nil && core.FnPkgPath(callee) == core.ModPath+"/"+pkgProcessor {
+						if rt, ok := callee.Signature.Recv().Type().(*types.Pointer); ok && types.Identical(rt.Elem(), named) {
+							cone[callee] = true
+							work = append(work, callee)
+						}
+					}
+				}
+			}
+			var fromField func(v ssa.Value, f *types.Var, depth int) bool
+			fromField = func(v ssa.Value, f *types.Var, depth int) bool {
+				if depth > 6 || v == nil {
+					return false
+				}
+				switch x := v.(type) {
+				case *ssa.UnOp:
+					if a, ok := x.X.(*ssa.FieldAddr); ok && core.FieldOfAddr(a) == f {
+						return true
+					}
+					return fromField(x.X, f, depth+1)
+				case *ssa.BinOp:
+					return fromField(x.X, f, depth+1) || fromField(x.Y, f, depth+1)
+				case *ssa.Convert:
+					return fromField(x.X, f, depth+1)
+				case *ssa.Phi:
+					for _, e := range x.Edges {
+						if fromField(e, f, depth+1) {
+							return true
+						}
+					}
+				}
+				return false
+			}
+			n := 0
+			var coneFns []*ssa.Function
+			for fn := range cone {
+				coneFns = append(coneFns, fn)
+			}
+			sort.Slice(coneFns, func(i, j int) bool { return coneFns[i].Name() < coneFns[j].Name() })
+			for _, fn := range coneFns {
+				k := 0
+				for _, b := range fn.Blocks {
+					for _, in := range b.Instrs {
+						bo, ok := in.(*ssa.BinOp)
+						if !ok {
+							continue
+						}
+						switch bo.Op {
+						case token.LSS, token.LEQ, token.GTR, token.GEQ, token.EQL, token.NEQ, token.SUB:
+						default:
+							continue
+						}
+						lx, ly := fromField(bo.X, limitF, 0), fromField(bo.Y, limitF, 0)
+						if !lx && !ly {
+							continue
+						}
+						// comparisons with constants (e.g. limit == 0) say nothing about the stream
+						if _, isK := bo.X.(*ssa.Const); isK {
+							continue
+						}
+						if _, isK := bo.Y.(*ssa.Const); isK {
+							continue
+						}
+						n++
+						k++
+						okc := fromField(bo.X, counterF, 0) || fromField(bo.Y, counterF, 0)
+						r.Check(okc, "LIVE", fmt.Sprintf("%s:%s#%d-row-limit-is-measured-against-the-cumulative-count", sp.typ, fn.Name(), k), c.Pos(bo.Pos()),
+							fmt.Sprintf("%s is combined with the rows already sent (%s)", sp.limitField, sp.counterField),
+							fmt.Sprintf("the configured row limit %s is compared with a quantity of the current batch only, not with the rows already sent (%s): how many rows the command lets through depends on how the input is chunked", sp.limitField, sp.counterField))
+					}
+				}
+			}
+			r.Floor("LIVE", "uses of the row limit in "+sp.typ, n, 3)
 		}
 	}
 
